@@ -36,7 +36,8 @@ def first_round(rng, tier):
 def tree_runs(ctx, fails):
     """run; run; --check on a tree, serial and parallel: the second run reports 0 modified and touches nothing."""
     res = []
-    for first, second in (([], []), (["-j3"], []), ([], ["-j3"]), (["-j2"], ["-j4"])):
+    # a negative $SOURCE_DATE_EPOCH is ignored: by a serial run, by the controller and by every worker alike
+    for first, second, epoch in (([], [], samples.EPOCH), (["-j3"], [], samples.EPOCH), ([], ["-j3"], samples.EPOCH), (["-j2"], ["-j4"], samples.EPOCH), ([], ["-j2"], -86400)):
         t = fh.Tree()
         try:
             for n, (data, hs) in samples.per_handler().items():
@@ -45,15 +46,18 @@ def tree_runs(ctx, fails):
             t.add_file("t/hl.gz", fc.gz(1700000000))
             t.link("t/hl.gz", "t/sub/hl2.gz")
             t.add_file("t/bad.gz", b"not gzip")
-            rc1, out1 = fh.run_cli(first + [t.path("t")], epoch=samples.EPOCH, timeout=120)
+            # leftovers of an interrupted earlier run, longer than what is written now
+            for n, (data, hs) in list(samples.per_handler().items())[::2]:
+                t.add_file("t/.#." + n + ".tmp", b"left over " * ((len(data) + 8192) // 10 + 1), mode=0o600)
+            rc1, out1 = fh.run_cli(first + [t.path("t")], epoch=epoch, timeout=120)
             s1 = fh.parse_summary(out1)
             mid = fh.snapshot(t.root, with_dir_mtime=False)        # a directory's own mtime may move (the hidden temp file comes and goes)
-            rc2, out2 = fh.run_cli(second + [t.path("t")], epoch=samples.EPOCH, timeout=120)
+            rc2, out2 = fh.run_cli(second + [t.path("t")], epoch=epoch, timeout=120)
             s2 = fh.parse_summary(out2)
             after = fh.snapshot(t.root, with_dir_mtime=False)
-            rc3, out3 = fh.run_cli(["--check", "--handler=-gzip"] + second + [t.path("t")], epoch=samples.EPOCH, timeout=120)   # bad.gz is unsupported: leave gzip out of the verdict
+            rc3, out3 = fh.run_cli(["--check", "--handler=-gzip" if epoch >= 0 else "--handler=-gzip,-zip,-jar"] + second + [t.path("t")], epoch=epoch, timeout=120)   # zip and jar cannot be asked for by name without an epoch   # bad.gz is unsupported: leave gzip out of the verdict
             s3 = fh.parse_summary(out3)
-            label = "run %s; run %s; --check" % (" ".join(first) or "serial", " ".join(second) or "serial")
+            label = "run %s; run %s; --check%s" % (" ".join(first) or "serial", " ".join(second) or "serial", "" if epoch == samples.EPOCH else " (SOURCE_DATE_EPOCH=%d)" % epoch)
             res.append({"case": label, "first": s1, "second": s2, "check_exit": rc3})
             if s1 is None or s1["modified"] == 0:
                 fails.append(("first-run-idle", "%s: the first run modified nothing (%s)" % (label, s1), label))
